@@ -372,8 +372,8 @@ pub fn fixtures(env: &Env, d: D) -> Vec<Fx> {
                 ("by-hash".into(), HeaderRequest { data: Some(Data::Hash(env.headers[2].hash().as_bytes().to_vec())), amount: 1 }, resp(2), true),
                 ("not-found".into(), HeaderRequest { data: Some(Data::Origin(77)), amount: 1 }, HeaderResponse { body: vec![], status_code: 2 }.encode_length_delimited_to_vec(), false),
             ];
+            cases.push(("origin-max-amount-max".into(), HeaderRequest { data: Some(Data::Origin(u64::MAX)), amount: u64::MAX }, [resp(1), resp(2)].concat(), false));
             if t {
-                cases.push(("origin-max-amount-max".into(), HeaderRequest { data: Some(Data::Origin(u64::MAX)), amount: u64::MAX }, [resp(1), resp(2)].concat(), false));
                 cases.push(("origin1-amount64".into(), HeaderRequest { data: Some(Data::Origin(1)), amount: 64 }, (0..env.headers.len()).map(resp).collect::<Vec<_>>().concat(), true));
             }
             for (k, (name, req, stream, ok)) in cases.into_iter().enumerate() {
